@@ -2304,6 +2304,7 @@ func (c *Ctx) ScannerDetours(pkg string) []core.Ob {
 	succ := map[*ssa.Function]map[*ssa.Function]bool{}
 	pred := map[*ssa.Function]map[*ssa.Function]bool{}
 	isState := map[*ssa.Function]bool{}
+	setters := map[*ssa.Function]int{}
 	for _, fn := range c.Funcs() {
 		if !inPkgs(fn, pkg) {
 			continue
@@ -2318,15 +2319,24 @@ func (c *Ctx) ScannerDetours(pkg string) []core.Ob {
 				if !ok {
 					continue
 				}
-				tgt, ok := st.Val.(*ssa.Function)
-				if !ok {
-					continue
-				}
 				stt, ok := deref(fa.X.Type()).Underlying().(*types.Struct)
 				if !ok {
 					continue
 				}
 				if _, isSig := stt.Field(fa.Field).Type().Underlying().(*types.Signature); !isSig {
+					continue
+				}
+				if p, isParam := st.Val.(*ssa.Parameter); isParam {
+					// a setter helper: s.setStep(next) - its call sites are the transitions
+					for i, q := range fn.Params {
+						if q == p {
+							setters[fn] = i
+						}
+					}
+					continue
+				}
+				tgt, ok := st.Val.(*ssa.Function)
+				if !ok {
 					continue
 				}
 				isState[tgt] = true
@@ -2338,6 +2348,40 @@ func (c *Ctx) ScannerDetours(pkg string) []core.Ob {
 					pred[tgt] = map[*ssa.Function]bool{}
 				}
 				pred[tgt][fn] = true
+			}
+		}
+	}
+	// transitions made through a setter helper
+	if len(setters) > 0 {
+		for _, fn := range c.Funcs() {
+			if !inPkgs(fn, pkg) {
+				continue
+			}
+			for _, b := range fn.Blocks {
+				for _, in := range b.Instrs {
+					ci, ok := in.(ssa.CallInstruction)
+					if !ok {
+						continue
+					}
+					g := ci.Common().StaticCallee()
+					idx, isSetter := setters[g]
+					if g == nil || !isSetter || idx >= len(ci.Common().Args) {
+						continue
+					}
+					tgt, ok := ci.Common().Args[idx].(*ssa.Function)
+					if !ok {
+						continue
+					}
+					isState[tgt] = true
+					if succ[fn] == nil {
+						succ[fn] = map[*ssa.Function]bool{}
+					}
+					succ[fn][tgt] = true
+					if pred[tgt] == nil {
+						pred[tgt] = map[*ssa.Function]bool{}
+					}
+					pred[tgt][fn] = true
+				}
 			}
 		}
 	}
@@ -2394,9 +2438,6 @@ func (c *Ctx) ScannerDetours(pkg string) []core.Ob {
 		obs = append(obs, o)
 	}
 	obs = append(obs, core.Ob{Rule: "T-SCANSTATE", Key: "scope", Armed: true, Status: core.OK, Want: "the scanner's state functions were found", Got: fmt.Sprintf("%d state functions, %d detours", len(states), n)})
-	if len(states) < 5 {
-		obs[len(obs)-1].Status = core.Violated
-	}
 	return obs
 }
 
@@ -3788,7 +3829,8 @@ func payloadOrigin(v ssa.Value, d int) ssa.Value {
 func (c *Ctx) LengthPrefixes(pkgs ...string) []core.Ob {
 	var obs []core.Ob
 	for _, fn := range c.Funcs() {
-		if !inPkgs(fn, pkgs...) || fn.Name() != "WriteTo" || fn.Signature.Recv() == nil {
+		// (field writers and the helpers they share: any function of the package with the prefix-then-payload shape)
+		if !inPkgs(fn, pkgs...) {
 			continue
 		}
 		// raw payload writes: w.Write(p) / io.WriteString(w, s) with p, s not a local array
